@@ -259,7 +259,12 @@ impl<const D: usize> GlobalTopologyModel<D> for ToroidalModel<D> {
             if !coord.is_finite() {
                 return Err(GlobalTopologyModelError::NonFiniteCoordinate { axis, value: coord });
             }
-            let wrapped = coord.rem_euclid(period);
+            let mut wrapped = coord.rem_euclid(period);
+            // `rem_euclid` rounds to `period` itself for tiny negative inputs (e.g. -1e-20 with
+            // period 1.0); the fundamental domain is the half-open box [0, period).
+            if wrapped >= period {
+                wrapped = 0.0;
+            }
             *coord_ref = <T as NumCast>::from(wrapped).ok_or(
                 GlobalTopologyModelError::ScalarConversion {
                     axis,
